@@ -94,10 +94,45 @@ class AstModel(object):
                         '%s.__init__: non constant default' % owner)
                 params.append((n, True, d.value))
         attrmap = {}
+        none_to_list = set()    # parameters normalised `None -> []` first
         for st in init.body:
             if isinstance(st, ast.Expr) and isinstance(
                     st.value, ast.Constant):
                 continue
+            # if P is None: P = []      /  P = P or []  (and the
+            # conditional-expression spellings _init_value knows)
+            if isinstance(st, ast.If) and not st.orelse and \
+                    len(st.body) == 1 and isinstance(
+                    st.body[0], ast.Assign) and len(
+                    st.body[0].targets) == 1 and isinstance(
+                    st.body[0].targets[0], ast.Name) and \
+                    st.body[0].targets[0].id in names and isinstance(
+                    st.body[0].value, ast.List) and \
+                    not st.body[0].value.elts:
+                pn = st.body[0].targets[0].id
+                t = st.test
+                is_none = isinstance(t, ast.Compare) and len(
+                    t.ops) == 1 and isinstance(t.ops[0], ast.Is) and \
+                    isinstance(t.left, ast.Name) and t.left.id == pn and \
+                    isinstance(t.comparators[0], ast.Constant) and \
+                    t.comparators[0].value is None
+                is_not = isinstance(t, ast.UnaryOp) and isinstance(
+                    t.op, ast.Not) and isinstance(
+                    t.operand, ast.Name) and t.operand.id == pn
+                if is_none or is_not:
+                    none_to_list.add(pn)
+                    continue
+            if isinstance(st, ast.Assign) and len(st.targets) == 1 and \
+                    isinstance(st.targets[0], ast.Name) and \
+                    st.targets[0].id in names:
+                try:
+                    iv = self._init_value(owner, st.value, names)
+                except AnalysisError:
+                    iv = None
+                if iv is not None and iv[0] == 'param' and \
+                        iv[1] == st.targets[0].id and iv[2]:
+                    none_to_list.add(iv[1])
+                    continue
             if isinstance(st, ast.Pass):
                 continue
             if isinstance(st, ast.Assert):
@@ -107,7 +142,10 @@ class AstModel(object):
                     isinstance(st.targets[0].value, ast.Name) and \
                     st.targets[0].value.id == 'self':
                 attr = st.targets[0].attr
-                attrmap[attr] = self._init_value(owner, st.value, names)
+                iv = self._init_value(owner, st.value, names)
+                if iv[0] == 'param' and iv[1] in none_to_list:
+                    iv = ('param', iv[1], True)
+                attrmap[attr] = iv
                 continue
             # super(X, self).__init__(a, b=c) / super().__init__(...)
             if isinstance(st, ast.Expr) and isinstance(
